@@ -261,16 +261,26 @@ pub fn present(ctx: &mut Ctx, inst: &str, holder: &mut SDJWTHolder, fmt: Fmt, se
 pub enum Resolver {
     Const(String),
     ByIss(Vec<(String, String)>),
+    /// keyed by the protected header's kid; the default key is for tokens that name no kid
+    ByKid(Vec<(String, String)>, String),
 }
 impl Resolver {
     pub fn json(&self) -> String {
         match self {
             Resolver::Const(k) => obj(&[("kind", qs("const")), ("key", qs(k))]),
             Resolver::ByIss(m) => obj(&[("kind", qs("byiss")), ("map", obj(&m.iter().map(|(i, k)| (i.as_str(), qs(k))).collect::<Vec<_>>()))]),
+            Resolver::ByKid(m, d) => obj(&[("kind", qs("bykid")), ("map", obj(&m.iter().map(|(i, k)| (i.as_str(), qs(k))).collect::<Vec<_>>())), ("dflt", qs(d))]),
         }
     }
-    fn key_for(&self, iss: &str) -> DecodingKey {
+    fn key_for(&self, iss: &str, kid: Option<&str>) -> DecodingKey {
         match self {
+            Resolver::ByKid(m, d) => match kid {
+                None => keys::dec(d),
+                Some(k) => match m.iter().find(|(i, _)| i == k) {
+                    Some((_, key)) => keys::dec(key),
+                    None => DecodingKey::from_secret(b"no key is known for this kid"),
+                },
+            },
             Resolver::Const(k) => keys::dec(k),
             Resolver::ByIss(m) => match m.iter().find(|(i, _)| i == iss) {
                 Some((_, k)) => keys::dec(k),
@@ -291,12 +301,12 @@ pub struct VerifyArgs<'a> {
     pub expect: String,
 }
 pub fn verify(ctx: &mut Ctx, a: &VerifyArgs) -> Out<Value> {
-    let calls: Rc<RefCell<Vec<(String, String)>>> = Rc::new(RefCell::new(vec![]));
+    let calls: Rc<RefCell<Vec<(String, String, String)>>> = Rc::new(RefCell::new(vec![]));
     let c2 = calls.clone();
     let res2 = a.res.clone();
     let cb = Box::new(move |iss: &str, h: &Header| {
-        c2.borrow_mut().push((iss.to_string(), format!("{:?}", h.alg)));
-        res2.key_for(iss)
+        c2.borrow_mut().push((iss.to_string(), format!("{:?}", h.alg), h.kid.clone().unwrap_or_default()));
+        res2.key_for(iss, h.kid.as_deref())
     });
     let raw = a.raw.to_string();
     let (aud, nonce, fmt) = (a.aud.map(String::from), a.nonce.map(String::from), a.fmt.lib());
@@ -309,7 +319,7 @@ pub fn verify(ctx: &mut Ctx, a: &VerifyArgs) -> Out<Value> {
         extra.push(("claims", tag(&J::from_value(c))));
     }
     let os = |o: Option<&str>| o.map(|s| tag(&J::Str(s.to_string()))).unwrap_or(NONE.to_string());
-    let cl: Vec<String> = calls.borrow().iter().map(|(i, al)| obj(&[("iss", qs(i)), ("alg", qs(al))])).collect();
+    let cl: Vec<String> = calls.borrow().iter().map(|(i, al, kid)| obj(&[("iss", qs(i)), ("alg", qs(al)), ("kid", qs(kid))])).collect();
     let line = obj(&[
         ("ev", qs("Verify")),
         ("fmt", qs(a.fmt.name())),
